@@ -30,7 +30,7 @@ vars == <<id, s, q, e, out>>
 
 C == Cfg[id]
 g == C.gram
-mode == C.mode
+mode == C.mode  \* (TLC warns that a record field is also called mode: harmless)
 Ctx1 == Contexts[1]
 P(gg, str) == Parse(gg, str, Ctx1)
 StepPiece(gg, qq, w) == RunFrom(gg, w, 1, qq, Ctx1)
